@@ -285,7 +285,7 @@ func (c14Engine) Gen(g *Gen) {
 			fault = "output:" + in.Out
 		}
 		for _, a := range in.Arts {
-			if a.K == "unknown" || a.Fails || strings.HasPrefix(a.Name.String(), "/") || a.Name.String() == ".." {
+			if strings.HasPrefix(a.K, "unknown") || a.Fails || strings.HasPrefix(a.Name.String(), "/") || a.Name.String() == ".." {
 				fault = "artifact"
 			}
 		}
@@ -294,6 +294,9 @@ func (c14Engine) Gen(g *Gen) {
 	}
 	badArts := func() []artJ {
 		bad := []artJ{mk("file", "/abs", "x"), mk("file", "../up", "x"), mk("app", "never", "x"), mk("inj", "", "x"), {K: "unknown", Name: B{}, IP: B{}, Text: B{}}}
+		for _, uk := range unknownKinds[1:] {
+			bad = append(bad, artJ{K: uk, Name: toB("u.go"), IP: B{}, Text: toB("u")})
+		}
 		t := mk("file", "t.go", "x")
 		t.Tpl, t.Fails = true, true
 		ct := mk("custom", "ct", "x")
